@@ -68,6 +68,8 @@ func c18(w *core.World, r *core.Report) {
 	ruleResolvedKeysWin(w, r)
 	r.Rule("R18.12", "a refusal is published before the unit channel is closed: the sender that sees the closed channel ends cleanly, so the parser's error must already be the replay's result", 1)
 	ruleRefusalPublishedBeforeClose(w, r)
+	r.Rule("R18.14", "the keys a unit is judged on are resolved from the command itself: a resolution keeps nothing of the command it resolved for a later one", 1)
+	ruleResolutionKeepsNothing(w, r)
 	r.Rule("R18.10", "the relaxed slot mode (forced slot 0, cross-slot accepted) is selected by 'the target is not a cluster' and nothing narrower", 1)
 	ruleSlotModeByTargetKind(w, r)
 	r.Rule("R18.4", "cluster client re-validation before MULTI is sent", 4)
